@@ -231,6 +231,8 @@ type sessRun struct {
 	badK      map[int]bool // peer stanzas whose content cannot be read to its end
 	stz       map[int]peerStanza // peer stanzas by number
 	nprobe    int
+	holdName  string // an uncounted stanza fed while a caller holds an open response after its context ended
+	holdSeen  bool
 }
 
 type handlerFn func(t xmlstream.TokenReadEncoder, start *xml.StartElement) error
@@ -477,6 +479,7 @@ func (sr *sessRun) act(a string) bool {
 		sr.cancd[i] = true
 		sr.cancel[i]()
 		sr.afterEnable(i)
+		sr.holdProbe(i)
 	case 's':
 		i := num()
 		if i >= len(sr.reqs) || sr.rstate[i] != "presel" {
@@ -544,6 +547,7 @@ func (sr *sessRun) act(a string) bool {
 		if sr.serve == "waitclose" {
 			sr.serve = "idle"
 			sr.afterBadClose(i)
+			sr.afterCloseHold()
 		} else if sr.serve == "handedpark" {
 			sr.serve = "handedpark-closed"
 		}
@@ -604,6 +608,40 @@ func (sr *sessRun) expectAbandon() {
 	if p.bad {
 		sr.awaitServeEnd() // the serve loop cannot read the rest of the element
 	}
+}
+
+// holdProbe (round F, seeded C06-22): the context of requester i ended AFTER its call returned a
+// response that it has not closed yet.  The serve loop must keep waiting for that close whatever
+// happens to the context: an uncounted stanza fed behind the response must not reach the handler
+// before the close (a short grace period gives a serve loop that wrongly went on the time to show
+// it; on correct code nothing arrives and the stanza is consumed right after the close).
+func (sr *sessRun) holdProbe(i int) {
+	if sr.resp[i] == nil || sr.closed[i] || sr.serve != "waitclose" || sr.hit != i || sr.holdName != "" || sr.dead || sr.badK[sr.respK(i)] || len(sr.problems) > 0 {
+		return
+	}
+	sr.nprobe++
+	sr.holdName = "abprobeH" + strconv.Itoa(sr.nprobe)
+	sr.holdSeen = false
+	name := sr.holdName
+	go sr.rs.Feed([]byte(`<message xmlns="jabber:client" id="` + name + `" type="chat"/>`))
+	if _, ok := sr.ctl.Wait(60*time.Millisecond, func(e Ev) bool { return e.Who == "handler" && e.What == "h:message:"+name }, &sr.skipped); ok {
+		sr.holdSeen = true
+		sr.r.Fail("continue-after-close", "serve-went-on-before-the-response-was-closed", sr.lines(), fmt.Sprintf("requester %d holds the response it was given and has not closed it; its context ended: the serve loop went on and gave the next stanza to the handler although the response is still open", i))
+	}
+}
+
+// afterCloseHold: the response has been closed, the serve loop goes on: the stanza fed by
+// holdProbe is handled now.
+func (sr *sessRun) afterCloseHold() {
+	if sr.holdName == "" {
+		return
+	}
+	name := sr.holdName
+	sr.holdName = ""
+	if sr.holdSeen || sr.dead {
+		return
+	}
+	sr.wait(func(e Ev) bool { return e.Who == "handler" && e.What == "h:message:"+name }, "the stanza behind the closed response")
 }
 
 func (sr *sessRun) respK(i int) int {
